@@ -23,7 +23,7 @@ def phase(rep, name):
 # ------------------------------------------------------------------------------------------- BrokerImpl configurations
 BASE = dict(Pubs='{"p1"}', K=2, Subs='{"s1", "s2"}', W=1, Parallel="FALSE", Backend='"queue"', Cap=0, Buf=0,
             StatsIds="{}", WaitIds="{}", StopIds="{}", AutoRead="FALSE", Toggles=2, AllowUnsub="TRUE",
-            AllowParentCancel="FALSE", CtxCancels=0,
+            AllowParentCancel="FALSE", CtxCancels=0, Redundant=0,
             # the switches: the code with the two proposed repairs (fixes/broker-*.diff); the *_asis entries flip them
             WaitLocksMu="FALSE", StatsBuffered="TRUE", RecvWaitsFirst="FALSE", KF_UnsubWindow="TRUE")
 SAFETY = ("TypeOK OnlyPublishedInv NoDuplicateInv ExactlyOnceInv OrderInv NoStall CtxRespected StopReturns "
@@ -33,6 +33,7 @@ SAFETY = ("TypeOK OnlyPublishedInv NoDuplicateInv ExactlyOnceInv OrderInv NoStal
 def impl_cfg(over, props="", invariants=SAFETY):
     d = dict(BASE)
     d.update(over)
+    d.setdefault("CtlBuf", d["Buf"])      # the code: subCh / unsubCh have capacity BufferSize
     t = "SPECIFICATION Spec\nCONSTANTS\n" + "".join("  %s = %s\n" % kv for kv in d.items()) + "INVARIANTS " + invariants + "\n"
     if props:
         t += "PROPERTIES " + props + "\n"
@@ -60,7 +61,8 @@ def delivery_models(quick):
                ("queue(1) sheds load", dict(be("queue", 1)), ""),
                ("deque(1) blocks", dict(be("deque", 1)), ""),
                ("nbdeque(1) evicts (LIFO broker)", dict(be("nbdeque", 1)), ""),
-               ("queue BufferSize=1", dict(Buf=1, Toggles=1), "")]
+               ("queue BufferSize=1", dict(Buf=1, Toggles=1), ""),
+               ("queue W=1, redundant Unsubscribe", dict(Redundant=1, Toggles=1), "")]
     return ms
 
 
@@ -100,6 +102,9 @@ def progress_models(quick):
 ASIS = {
     "unsub": ("MC_asis_unsub.cfg", "ExactlyOnceInv", "C08",
               "window as in DESIGN 5.0: a message accepted before Unsubscribe is called is lost when dispatched after it"),
+    "ctlbuf": ("MC_whatif_ctlbuf.cfg", "ExactlyOnceInv", "C08",
+               "what-if: control channels buffered although BufferSize = 0 - Subscribe returns before the registration, a "
+               "message published afterwards can be dispatched first (the class of the event-loop-busy schedules)"),
     "stats": ("MC_asis_stats.cfg", "NoStall", "C09",
               "unbuffered Stats reply: a caller that gave up leaves the event loop blocked for ever"),
     "wait": ("MC_asis_wait.cfg", "StopReturns", "C09", "Wait holds b.mu while blocked: Stop cannot run"),
